@@ -12,6 +12,7 @@ inductive Loop (revq : List Nat) : List (Nat × Bool) → Cell → Cell → Prop
   | nil {c} : Loop revq [] c c
   | cons {q qs c c1 c2 a0} : c.app? q.1 = some a0 →
       LReach (PlaceOk a0 q.2 (revq.takeWhile (· ≠ q.1))) c c1 → Loop revq qs c1 c2 →
+      (∃ st st' : PState, st.cell = c ∧ st'.cell = c1 ∧ placeOne revq st q = .ok st') →
       Loop revq (q :: qs) c c2
 
 /-- `evicted = dict()` at the start of `_find_placements`. -/
@@ -26,7 +27,7 @@ inductive Cycle : List (List (Nat × Bool)) → Cell → Cell → Prop
 theorem Loop.toReach {revq qs c c'} (h : Loop revq qs c c') : Reach c c' := by
   induction h with
   | nil => exact .refl
-  | cons _ r _ ih => exact r.toReach.trans ih
+  | cons _ r _ _ ih => exact r.toReach.trans ih
 
 theorem Cycle.toReach {qs c c'} (h : Cycle qs c c') : Reach c c' := by
   induction h with
@@ -47,7 +48,7 @@ theorem placeLoop {revq : List Nat} : ∀ (l : List (Nat × Bool)) (s s' : PStat
       obtain ⟨a, ha, _⟩ := h1
       exact ⟨a, ha⟩
     obtain ⟨a0, ha0⟩ := hx
-    exact .cons ha0 (placeOne_lreach ha0 h1) (ih _ _ h2)
+    exact .cons ha0 (placeOne_lreach ha0 h1) (ih _ _ h2) ⟨s, s1, rfl, rfl, h1⟩
 
 theorem findPlacements_loop {c c' q ch ch'} (h : findPlacements c q ch = .ok (c', ch')) :
     Loop (q.map (·.1)).reverse q (clearGhost c) c' := by
